@@ -53,6 +53,7 @@ func checkC02(r *Run) {
 	c02Truncate(r, mt)
 	c02Sendmsg(r, sm)
 	c02Msgmsize(r, mm)
+	c02OverflowExposed(r)
 	// the fit test compares msize with 4 + Codec.Size(fcall) while the bytes written come from Marshal: the frame
 	// bound holds only if size9p and encode agree for every type and every special case (codec-grammar rules)
 	c01Grammar(r)
@@ -669,4 +670,71 @@ func c02CallerBuffer(r *Run, fns []*ssa.Function) {
 	}
 	// expected count is zero on the pinned tree: the self-test fixture guards the rule (see selftest)
 	r.OkTrivial("caller-buffer", fmt.Sprintf("enumerated element stores / copy / append in WriteFcall, maybeTruncate, sendmsg, msgmsize: %d", n), token.NoPos)
+}
+
+// ---- Overflow(err) exposes the excess --------------------------------------------------------------------------
+//
+// "returns an error reporting by how many bytes the message is too long": the number travels from the overflowErr
+// literal (checked by the partition/overflow-amount rules) through overflowErr.Size() and Overflow(err) to the caller.
+func c02OverflowExposed(r *Run) {
+	p := r.P
+	sz := p.Fn("p9p:(overflowErr).Size")
+	ov := p.Fn("p9p:Overflow")
+	if sz == nil || ov == nil {
+		r.Undecided("overflow-exposed", "Overflow / overflowErr.Size", token.NoPos, "anchor not found")
+		return
+	}
+	r.SawFn(fnName(sz))
+	r.SawFn(fnName(ov))
+	// Size() returns the receiver's size field
+	okSz, nSz := true, 0
+	for _, ret := range returnsOf(sz) {
+		nSz++
+		v := stripConv(ret.Results[0])
+		isField := false
+		if f, ok := v.(*ssa.Field); ok && f.X == ssa.Value(sz.Params[0]) && fieldNameV(f.X.Type(), f.Field) == "size" {
+			isField = true
+		}
+		if o, ok := fieldOfLocalCopy(v, "size"); ok && o == ssa.Value(sz.Params[0]) {
+			isField = true
+		}
+		if !isField {
+			okSz = false
+		}
+	}
+	r.Check(okSz && nSz > 0, "overflow-exposed", "overflowErr.Size: returns the recorded excess", sz.Pos(), "Size() does not return the size field of the error")
+	// Overflow: comma-ok assertion of the argument to the overflow interface; on the ok edge the result is that value's Size()
+	var ta *ssa.TypeAssert
+	eachInstr(ov, func(in ssa.Instruction) {
+		if x, ok := in.(*ssa.TypeAssert); ok && x.X == ssa.Value(ov.Params[0]) && x.CommaOk {
+			if it, ok := x.AssertedType.Underlying().(*types.Interface); ok && it.NumMethods() == 1 && it.Method(0).Name() == "Size" {
+				ta = x
+			}
+		}
+	})
+	if ta == nil {
+		r.Bad("overflow-exposed", "Overflow: recognises an error that carries an excess (Size() int)", ov.Pos(), "Overflow does not look for the overflow interface on its argument: the excess is never reported")
+		return
+	}
+	okv, val := resultN(ta, 1), resultN(ta, 0)
+	okRet := false
+	for _, ret := range returnsOf(ov) {
+		onOk := false
+		for _, cd := range condsAtInstr(ret) {
+			nc := normCond(cd)
+			if nc.V == okv && nc.Truth {
+				onOk = true
+			}
+		}
+		if !onOk {
+			continue
+		}
+		if c, ok := stripConv(ret.Results[0]).(*ssa.Call); ok && c.Call.IsInvoke() && c.Call.Method.Name() == "Size" && c.Call.Value == val {
+			okRet = true
+		} else {
+			okRet = false
+			break
+		}
+	}
+	r.Check(okRet, "overflow-exposed", "Overflow: for an overflow error the result is exactly its Size()", ta.Pos(), "on the edge where the error carries an excess, Overflow returns something else than that excess")
 }
